@@ -1,4 +1,7 @@
 import AldorVerif.Lemmas.Scan
+import AldorVerif.Lemmas.IfState
+import AldorVerif.Gen.Diagnostics
+import AldorVerif.Gen.Catalogue
 import AldorVerif.Model.Exit
 
 /-! # C07 — total on arbitrary text, honest exit status: the part a model can carry
@@ -146,5 +149,61 @@ theorem exit_honest_files (fs : List Nat) : exitStatusFiles fs ≠ 0 ↔ compFil
 
 /-- about the text before 20d6e38 (`return compCmd(argc, argv);`): 256 errors exited with status 0 -/
 theorem old_exit_wraps : osStatus (mainClampOld 256) = 0 ∧ osStatus (mainClampOld 255) = 255 ∧ osStatus (mainClampOld 257) = 1 := by decide
+
+/-! ## conditional inclusion: an `#if` that is open at the end of the file is an error -/
+
+section IfState
+open AldorVerif.IfState
+
+/-- the includer reports `InclIfEof` once for every `#if` that is still open at the end of the
+    file — whether the end falls in a taken branch, a skipped branch, an `#else` or an `#elseif`
+    part (the branch only decides `IfState`, which the count does not depend on) -/
+theorem eof_errors_equal_open_ifs (as : List Nat) (ls : List Line) (d : Nat)
+    (h : depthAtEof 0 ls = some d) : eofCount (runFile as ls) = d := by
+  unfold runFile
+  rcases top_ok (ls.length + 1) as ls (by omega) with h' | h'
+  · rw [h] at h'; cases h'
+  · rw [h] at h'; exact (Option.some.inj h').symm
+
+/-- every input whose directive sequence leaves an `#if` open at the end of the file produces the
+    end-of-file error -/
+theorem eof_in_open_if_is_error (as : List Nat) (ls : List Line) (d : Nat)
+    (h : depthAtEof 0 ls = some (d + 1)) : Ev.ifEof ∈ runFile as ls := by
+  have := eof_errors_equal_open_ifs as ls (d + 1) h
+  unfold eofCount at this
+  exact List.count_pos_iff.mp (by omega)
+
+/-- and a file whose `#if`s are all closed produces none -/
+theorem balanced_has_no_eof_error (as : List Nat) (ls : List Line)
+    (h : depthAtEof 0 ls = some 0) : Ev.ifEof ∉ runFile as ls := by
+  have := eof_errors_equal_open_ifs as ls 0 h
+  unfold eofCount at this
+  exact List.count_eq_zero.mp this
+
+/-- non-vacuity: end of file in a taken branch, in a skipped branch, in the `#else` part of a taken
+    `#if`, in an `#elseif` part, and two levels deep inside a skipped branch -/
+example : runFile [1] [.ifD 1, .text 7] = [.line 7, .ifEof]
+    ∧ runFile [] [.ifD 1, .text 7] = [.ifEof]
+    ∧ runFile [1] [.ifD 1, .text 7, .elseD, .text 8] = [.line 7, .ifEof]
+    ∧ runFile [] [.ifD 1, .elseifD 2, .text 8] = [.ifEof]
+    ∧ runFile [] [.ifD 1, .ifD 1, .text 7] = [.ifEof, .ifEof] := by decide
+
+/-- the three unbalanced directives at the file level are errors -/
+theorem stray_directive_is_error (as : List Nat) (r : List Line) :
+    Ev.unbalElse ∈ runFile as (.elseD :: r) ∧ Ev.unbalElseif ∈ runFile as (.elseifD 0 :: r) ∧
+    Ev.unbalEndif ∈ runFile as (.endifD :: r) := by
+  refine ⟨?_, ?_, ?_⟩ <;> simp [runFile, contents]
+
+end IfState
+
+/-! ## every diagnostic of abcheck.c, syscmd.c, linear.c, include.c has a catalogue entry -/
+
+/-- `Gen.Diagnostics.sites` is regenerated from the sources, `Gen.Catalogue.targets` from the catalogue of
+    checks/parts/scancat.py (violating programs with a recorded verdict, or the reason why a site cannot be
+    reached): a new check without a catalogue entry breaks this obligation -/
+theorem diagnostic_sites_catalogued :
+    ∀ s ∈ AldorVerif.Gen.Diagnostics.sites,
+      AldorVerif.Gen.Catalogue.targets.any (fun t => t.file == s.file && t.func == s.func && t.msg == s.msg) = true := by
+  decide +kernel
 
 end AldorVerif.C07
